@@ -176,3 +176,25 @@ fn k_rings_m_range_with_infinite_measure() {
     // -inf is below the no-data threshold: it is still the minimum of the stored values
     assert!(mz.bbox().max.m == 5.0 && mz.bbox().min.m == f64::NEG_INFINITY);
 }
+
+/// C07 (bounded in the ring length: 0, 1 and 2 points; every finite coordinate of magnitude <= 1e100, so that CBMC's
+/// "arithmetic produced NaN" checks, which are not Rust panics, stay silent): the orientation
+/// helper, assumed in Verus (A4) and reached from every Polygon* record read from a file (`PolygonRing::from`),
+/// returns a ring type for an empty, a one-point and a two-point ring -- it never panics or indexes out of bounds
+#[kani::proof]
+#[kani::unwind(4)]
+fn k07_ring_type_total_on_short_rings() {
+    let c: [f64; 4] = kani::any();
+    kani::assume(c[0].abs() <= 1e100 && c[1].abs() <= 1e100 && c[2].abs() <= 1e100 && c[3].abs() <= 1e100);
+    let pts = [Point::new(c[0], c[1]), Point::new(c[2], c[3])];
+    let n: usize = kani::any();
+    kani::assume(n <= 2);
+    let t = crate::record::ring_type_from_points_ordering(&pts[..n]);
+    assert!(t == crate::record::RingType::InnerRing || t == crate::record::RingType::OuterRing);
+    if n < 2 {
+        // no edge: the signed area is 0, which the whitepaper-side convention of the crate reports as an outer ring
+        assert!(t == crate::record::RingType::OuterRing);
+    }
+    kani::cover!(n == 0);
+    kani::cover!(n == 2 && t == crate::record::RingType::InnerRing);
+}
